@@ -197,6 +197,13 @@ def run_c26_part(chk):
         hist.sort(key=lambda h: -(sum(1 for c in h if c[0] in ("tick", "crash")) + 2 * sum(1 for c in h if c[0] == "try_begin_resume")))
         rest = hist[cap // 2:]
         hist = hist[: cap // 2] + rest[:: max(1, len(rest) // (cap - cap // 2))][: cap - cap // 2]
+    # a run that has been active (or released) for longer than the crash timeout before its release begins: the release in
+    # progress must still be respected (fixed histories; the graph has them too, but not always in the quick sample)
+    hist += [[["create"], ["tick"], ["tick"], ["tick"], ["begin_release", "r1"], ["try_begin_resume", "s1"], ["tick"],
+              ["try_begin_resume", "s1"], ["complete_release", "r1"], ["try_begin_resume", "s1"], ["owner_done", "s1"]],
+             [["create"], ["tick"], ["tick"], ["tick"], ["begin_release", "r1"], ["complete_release", "r1"], ["tick"], ["tick"], ["tick"],
+              ["try_begin_resume", "s1"], ["owner_done", "s1"], ["tick"], ["tick"], ["tick"], ["begin_release", "r2"],
+              ["try_begin_resume", "s2"], ["complete_release", "r2"]]]
     db = str(chk.work / "lock.sqlite")
     lock_traces = [drv.run_lock_history(db, h, T=2, fresh=(i == 0)) for i, h in enumerate(hist)]
     obs_lock = [{"kind": "lock", "steps": tr} for tr in lock_traces]
